@@ -6,7 +6,7 @@
 (*                                                                                                     *)
 (*   chain state   height, txlog (the blocks: every block is a sequence of catalogue entries),        *)
 (*                 queued (abstract summary of what waits in the consensus queue / skyway pool),      *)
-(*                 gate (governance completed an upgrade to a newer software version), halted         *)
+(*                 gate (governance completed an upgrade; running software x upgrade version), halted *)
 (*   node state    env (process environment variables consulted by Paloma code), restarts, nqueries   *)
 (*                                                                                                     *)
 (*   Block(txs)    txs drawn from the catalogue: transaction templates touching every Paloma module   *)
@@ -27,9 +27,10 @@ CONSTANTS Base,        \* height of the prepared world
           MaxHeight,   \* bound of the exhaustive runs
           EnvVars,     \* environment variables Paloma code consults (grep os.Getenv / LookupEnv in /repo)
           QueryKinds,  \* read-only entry points touching assigner / snapshot / tally / metrics code
-          BlockChoices \* the sets of transactions the exhaustive runs choose blocks from
+          BlockChoices, \* the sets of transactions the exhaustive runs choose blocks from
+          Versions     \* software versions / upgrade names of the version gate
 
-VARIABLES height, txlog, queued, gate, halted,   \* chain
+VARIABLES height, txlog, queued, gate, halted,   \* chain (gate: FALSE, or [app, gov] once governance completed an upgrade)
           env, restarts, nqueries,                \* node
           last                                    \* the action that led here
 
@@ -52,6 +53,8 @@ ClassesOf(tag) ==
     [] tag = "list"  -> {"empty", "overlong"}
     [] tag = "any"   -> {"empty", "malformed"}
     [] tag = "time"  -> {"zero", "huge63"}
+    \* a serialised transaction receipt (evidence of a relayed transaction): structure instead of bytes
+    [] tag = "receipt" -> {"empty", "malformed", "failed", "nologs", "notopics", "foreignfirst", "manylogs", "baddata", "manytopics"}
 
 CatIdx  == DOMAIN Cat
 Kinds   == {Cat[i][1] : i \in CatIdx}
@@ -107,28 +110,39 @@ PrepLog(s, hc) == LET sc == StageScript(s)  n == HeightOf(hc) - 1 - Base IN
 \* what the pigeons send in every block while the chain runs on
 DutyBlock == TplSeq(<<"sign", "estimate", "relayerr", "attesterr", "batchest", "confirm", "balances", "refblock">>)
 
+\* ---- software versions ----------------------------------------------------------------------------------
+\* a version is [v |-> <<major, minor, patch>>, pre |-> "" or a pre-release suffix]; the order is the SEMANTIC one: components
+\* compare as numbers (5.1.10 is newer than 5.1.6), a pre-release is older than its release
+NumLess(a, b) == \/ a[1] < b[1]
+                 \/ (a[1] = b[1] /\ a[2] < b[2])
+                 \/ (a[1] = b[1] /\ a[2] = b[2] /\ a[3] < b[3])
+Older(a, g) == NumLess(a.v, g.v) \/ (a.v = g.v /\ a.pre # "" /\ g.pre = "")
+NoVersion == [v |-> <<0, 0, 0>>, pre |-> ""]
+
 \* ---- actions ------------------------------------------------------------------------------------------
 Rec(a, x) == [act |-> a, arg |-> x]
 Perturbations == {"Restart", "Query", "SetEnv", "UnsetEnv"}
 
-Init == /\ height = Base /\ txlog = <<>> /\ queued = "idle" /\ gate = FALSE /\ halted = FALSE
+NoGate == [on |-> FALSE, app |-> NoVersion, gov |-> NoVersion]
+Closed == gate.on /\ Older(gate.app, gate.gov)
+Init == /\ height = Base /\ txlog = <<>> /\ queued = "idle" /\ gate = NoGate /\ halted = FALSE
         /\ env = {} /\ restarts = 0 /\ nqueries = 0
         /\ last = Rec("Init", <<>>)
 
 \* a block of transactions is finalised: enabled for EVERY txs unless the gate closed (C09)
 Block(txs) ==
-  /\ ~halted /\ ~gate
+  /\ ~halted /\ ~Closed
   /\ height' = height + 1
   /\ txlog' = Append(txlog, txs)
   /\ queued' = StageAfter(queued, txs)
   /\ UNCHANGED <<gate, halted, nodeVars>>
   /\ last' = Rec("Block", txs)
 
-\* governance completed an upgrade to a version newer than the running software ...
-Gate == /\ ~gate /\ ~halted /\ gate' = TRUE
-        /\ UNCHANGED <<height, txlog, queued, halted, nodeVars>> /\ last' = Rec("Gate", <<>>)
-\* ... the next block is not finalised: the node stops in begin block (x/paloma CheckChainVersion)
-Halt == /\ gate /\ ~halted /\ halted' = TRUE
+\* governance completed the upgrade gov while the node runs the software app ...
+Gate(app, gov) == /\ ~gate.on /\ ~halted /\ gate' = [on |-> TRUE, app |-> app, gov |-> gov]
+                  /\ UNCHANGED <<height, txlog, queued, halted, nodeVars>> /\ last' = Rec("Gate", <<>>)
+\* ... only software OLDER than the completed upgrade stops: its next block is not finalised (x/paloma CheckChainVersion)
+Halt == /\ Closed /\ ~halted /\ halted' = TRUE
         /\ UNCHANGED <<height, txlog, queued, gate, nodeVars>> /\ last' = Rec("Halt", <<>>)
 
 Restart     == /\ restarts' = restarts + 1 /\ UNCHANGED <<chainVars, env, nqueries>> /\ last' = Rec("Restart", <<>>)
@@ -137,12 +151,12 @@ SetEnv(x)   == /\ env' = env \cup {x} /\ UNCHANGED <<chainVars, restarts, nqueri
 UnsetEnv(x) == /\ env' = env \ {x} /\ UNCHANGED <<chainVars, restarts, nqueries>> /\ last' = Rec("UnsetEnv", x)
 
 Perturb == \/ Restart \/ (\E k \in QueryKinds : Query(k)) \/ (\E x \in EnvVars : SetEnv(x) \/ UnsetEnv(x))
-Next == (\E txs \in BlockChoices : Block(txs)) \/ Gate \/ Halt \/ Perturb
+Next == (\E txs \in BlockChoices : Block(txs)) \/ (\E a, g \in Versions : Gate(a, g)) \/ Halt \/ Perturb
 Spec == Init /\ [][Next]_vars
 
 \* ---- properties -----------------------------------------------------------------------------------------
 TypeOK == /\ height \in Nat /\ height = Base + Len(txlog)
-          /\ queued \in Stages /\ gate \in BOOLEAN /\ halted \in BOOLEAN
+          /\ queued \in Stages /\ gate \in [on : BOOLEAN, app : Versions \cup {NoVersion}, gov : Versions \cup {NoVersion}] /\ halted \in BOOLEAN
           /\ env \subseteq EnvVars /\ restarts \in Nat /\ nqueries \in Nat
 
 \* C08: perturbations of one node stutter on the chain state
@@ -154,8 +168,9 @@ StageOfLog(log) == IF log = <<>> THEN "idle" ELSE StageAfter(StageOfLog(SubSeq(l
 StateIsFunctionOfHistory == /\ height = Base + Len(txlog) /\ queued = StageOfLog(txlog)
 
 \* C09: no reachable state disables the next block except the version gate
-NoAbort == (~gate /\ ~halted) => \A txs \in BlockChoices : ENABLED Block(txs)
-OnlyGateHalts == halted => gate
+NoAbort == (~Closed /\ ~halted) => \A txs \in BlockChoices : ENABLED Block(txs)
+\* a halt only for software that is semantically older than the completed upgrade
+OnlyGateHalts == halted => Closed
 \* every module is reached by a template or a hostile kind
 ASSUME CatalogueCoversModules == {"consensus", "evm", "paloma", "scheduler", "skyway", "tokenfactory", "treasury", "valset"} \subseteq Modules
 =============================================================================
